@@ -32,7 +32,7 @@ Definition w1 : smodel :=
        [(7%N, mkComp 29%N [1%N; 6%N])]
        [5%N; 6%N; 7%N]
        [(1%N, [(7%N, -1)]); (2%N, [(7%N, 1)])]
-       [].
+       [] [].
 Definition w1_env : name -> Q :=
   env_of [(1%N, 2); (2%N, 0); (3%N, 1); (4%N, 2); (5%N, 2); (6%N, 4); (7%N, 8)].
 
@@ -81,8 +81,8 @@ Proof.
     + eapply translates_len2; [reflexivity|]. intros a b. discriminate.
     + eapply translates_len2; [reflexivity|]. intros a b. discriminate.
   - intros cpd row r n Hin Hr. cbn [w1 m_stoich] in Hin. in_cases Hin; in_cases Hr; vm_compute; solve_or.
-  - intros cpd row Hin. destruct Hin.
-  - intros v Hv. cbn [w1 m_vars] in Hv. in_cases Hv; eexists; (split; [vm_compute; eauto|discriminate]).
+  - intros cpd row r c Hin. destruct Hin.
+  - intros v Hv. cbn [w1 m_vars] in Hv. in_cases Hv; left; eexists; (split; [vm_compute; eauto|discriminate]).
 Qed.
 
 Lemma w1_order_ok : OrderOk w1.
@@ -105,7 +105,7 @@ Definition w2_env : name -> Q := env_of [(1%N, 1); (2%N, 1 # 2); (3%N, 5); (4%N,
 Definition w2 : smodel :=
   mkSM [1%N; 2%N] [(3%N, PPlain 5); (4%N, PPlain 2)] [] [] [(6%N, mkComp 29%N [1%N; 4%N])] [6%N]
        (fst (build_tables fsem_lib w2_parnames w2_env0 w2_raw))
-       (snd (build_tables fsem_lib w2_parnames w2_env0 w2_raw)).
+       (snd (build_tables fsem_lib w2_parnames w2_env0 w2_raw)) [].
 
 Lemma w2_resolved : Resolved fsem_lib w2 w2_env.
 Proof.
@@ -139,7 +139,7 @@ Definition w3_env : name -> Q := env_of [(1%N, 3); (2%N, 1); (3%N, 2); (5%N, 6)]
 Definition w3 : smodel :=
   mkSM [1%N; 2%N] [(3%N, PPlain 2)] [] [] [(5%N, mkComp 29%N [1%N; 3%N])] [5%N]
        (fst (build_tables fsem_lib [3%N] w3_env w3_raw))
-       (snd (build_tables fsem_lib [3%N] w3_env w3_raw)).
+       (snd (build_tables fsem_lib [3%N] w3_env w3_raw)) [].
 
 Lemma w3_resolved : Resolved fsem_lib w3 w3_env.
 Proof.
@@ -168,7 +168,7 @@ Section Composed.
   Hypothesis sdiff_syms : forall x e, incl (syms (sdiff x e)) (syms e).
 
   Theorem simulator_jacobian F m0 m eqs t x :
-    sf_third F = ThirdNumericByName ->
+    sf_third F = ThirdNumericByName -> sf_symtab F = SymVarsParsData ->
     to_symbolic fsym F m0 = SymOk eqs ->                 (* construction: Simulator(m0, use_jacobian=True) *)
     m_data m0 = [] ->
     map fst (m_pars m) = map fst (m_pars m0) ->          (* later: values may have been updated, names not *)
@@ -177,14 +177,14 @@ Section Composed.
     call_closure F m (init_jac fsym sdiff F m0) t x =
     CMat (map (map (eval (bound_env t (m_vars m0) x (m_pars m)))) (jacobian sdiff eqs (m_vars m0))).
   Proof.
-    intros HF Hconv Hdata Hnames Hnd Hlen.
+    intros HF HFt Hconv Hdata Hnames Hnd Hlen.
     rewrite (init_jac_ok fsym sdiff F m0 eqs Hconv).
     apply closure_binding; try assumption; [symmetry; exact Hnames|].
     intros row e Hrow He n Hn. unfold jacobian in Hrow.
     apply in_map_iff in Hrow. destruct Hrow as [e0 [Hr He0]]. subst row.
     apply in_map_iff in He. destruct He as [v [Hv _]]. subst e.
     apply sdiff_syms in Hn.
-    pose proof (to_symbolic_syms fsym fsym_syms F m0 eqs Hconv e0 He0 n Hn) as Hb.
+    pose proof (to_symbolic_syms fsym fsym_syms F m0 eqs HFt Hconv e0 He0 n Hn) as Hb.
     unfold base_names in Hb. rewrite Hdata, app_nil_r in Hb. right.
     apply in_app_or in Hb. apply in_or_app. destruct Hb as [Hb|Hb]; [left; exact Hb|right; apply plain_par_names_incl; exact Hb].
   Qed.
